@@ -315,11 +315,13 @@ func (t *Thread) CallContext(def RuntimeContextDef, f func() error) (ctx Runtime
 	defer func() {
 		ctx = t.PopContext()
 		if r := recover(); r != nil {
-			t.closeStack.truncate(h) // No resources to run that, so just discard it.
 			termErr, ok := r.(ContextTerminationError)
 			if !ok {
+				// Not for us (e.g. the coroutine is being closed): the pending
+				// to-be-closed values are dealt with by whoever handles it.
 				panic(r)
 			}
+			t.closeStack.truncate(h) // No resources to run that, so just discard it.
 			err = termErr
 		}
 	}()
